@@ -260,6 +260,68 @@ static void run_type(uint64_t seed)
             // pow with a real exponent, on the conditioned sub-domain |r| * |Log z| <= 8
             cmpc("pow_real_exponent", xs::pow(va, vr), [](CL x, CL, CL, ld r) { return (x == CL(0) || fabsl(r) * std::abs(std::log(x)) > 8) ? CL(NAN, NAN) : std::pow(x, r); }, 32, 1, none);
         }
+        if (it % 4 == 2)
+        {
+            // wide moduli: the whole exponent range of the element type, and exact zeros.  The property restricts the
+            // arithmetic to "no intermediate overflow" but puts no magnitude restriction on abs / arg / log / sqrt / pow;
+            // for the division only the divisor is made small (a small divisor overflows nothing; it must not underflow
+            // to a division by zero either).
+            const int emax = std::numeric_limits<T>::max_exponent - 3;
+            C wa[N], wd[N];
+            int wca[N];
+            for (size_t i = 0; i < N; ++i)
+            {
+                wa[i] = Gen<T>::get(rng, emax, wca[i]);
+                int dummy;
+                C d = Gen<T>::get(rng, emax / 2, dummy);
+                // divisor: modulus in [2^-emax, 2^0]
+                wd[i] = C((T)std::ldexp((double)d.real(), -emax / 2), (T)std::ldexp((double)d.imag(), -emax / 2));
+                if (rng.next() % 16 == 0)
+                    wa[i] = C((rng.next() & 1) ? (T)0.0 : (T)-0.0, (rng.next() & 1) ? (T)0.0 : (T)-0.0);
+            }
+            C sa[N];
+            int sca[N], scb[N];
+            memcpy(sa, a, sizeof a);
+            memcpy(sca, ca, sizeof ca);
+            memcpy(scb, cb, sizeof cb);
+            C sb[N];
+            memcpy(sb, b, sizeof b);
+            // the comparison lambdas read a[], b[], ca[], cb[]
+            memcpy(a, wa, sizeof a);
+            memcpy(ca, wca, sizeof ca);
+            mark_case("complex_wide_moduli", tname<T>(), a, sizeof a);
+            B wv = B::load_unaligned(a);
+            auto wide = [](CL x, CL) -> const char*
+            {
+                // named class of the open finding about extreme moduli (first match wins)
+                ld m = std::abs(x);
+                const int half = std::numeric_limits<T>::max_exponent / 2;
+                return (m != 0 && (m >= ldexpl(1.0L, half - 14) || m < ldexpl(1.0L, -(half - 14)))) ? "modulus_outside_middle_of_exponent_range" : (m == 0 ? "zero_operand" : "unclassified");
+            };
+            cmpr("abs", xs::abs(wv), [](CL x) { return std::abs(x); }, 32, false);
+            cmpr("arg", xs::arg(wv), [](CL x) { return std::arg(x); }, 32, false);
+            cmpc("log", xs::log(wv), [](CL x, CL, CL, ld) { return std::log(x); }, 32, 1, wide);
+            cmpc("log2", xs::log2(wv), [](CL x, CL, CL, ld) { return std::log(x) / logl(2.0L); }, 32, 1, wide);
+            cmpc("log10", xs::log10(wv), [](CL x, CL, CL, ld) { return std::log10(x); }, 32, 1, wide);
+            cmpc("sqrt", xs::sqrt(wv), [](CL x, CL, CL, ld) { return std::sqrt(x); }, 8, 1,
+                 [&](CL x, CL y) { return (x.real() < 0 && x.imag() == 0 && std::signbit((double)x.imag())) ? "sqrt_negative_real_axis_minus_zero_imag" : wide(x, y); });
+            cmpc("pow_real_exponent", xs::pow(wv, vr), [](CL x, CL, CL, ld r) { return (x == CL(0) || fabsl(r) * std::abs(std::log(x)) > 8) ? CL(NAN, NAN) : std::pow(x, r); }, 32, 1, wide);
+            cmpc("polar", xs::polar(xs::abs(wv), xs::arg(wv)), [](CL x, CL, CL, ld) { return x; }, 32, 1, wide);
+            // division by a small divisor: numerator of moderate size (the saved operand), divisor wd
+            memcpy(a, sa, sizeof a);
+            memcpy(ca, sca, sizeof ca);
+            memcpy(b, wd, sizeof b);
+            B dv = B::load_unaligned(b);
+            auto small_div = [](CL, CL y) -> const char*
+            {
+                const int half = std::numeric_limits<T>::max_exponent / 2;
+                return std::abs(y) < ldexpl(1.0L, -(half - 14)) ? "divisor_modulus_squared_underflows" : "unclassified";
+            };
+            cmpc("div", va / dv, [](CL x, CL y, CL, ld) { return y == CL(0) ? CL(NAN, NAN) : x / y; }, 8, 0, small_div);
+            cmpc("real_batch_div", vr / dv, [](CL, CL y, CL, ld r) { return y == CL(0) ? CL(NAN, NAN) : CL(r) / y; }, 8, 0, small_div);
+            memcpy(b, sb, sizeof b);
+            memcpy(cb, scb, sizeof cb);
+        }
         if (it % 64 == 0)
         {
             // not claimed (DESIGN.md 5.1): called under the crash / hang monitors only
